@@ -298,16 +298,18 @@ func driverSizes(c *Ctx) {
 		}
 		// huge and overflowing bounds
 		for _, sz := range []string{"[99999999999999999999]", "[0..99999999999999999999]", "[99999999999999999999..]", "[9223372036854775807..9223372036854775808]",
-			"[9223372036854775808..9223372036854775807]", "[18446744073709551616..1]", "[..18446744073709551616]", "[4294967296]", "[2147483648..]", "[007]", "[1..1]", "[2..1]"} {
+			"[9223372036854775808..9223372036854775807]", "[18446744073709551616..1]", "[..18446744073709551616]", "[4294967296]", "[2147483648..]", "[007]", "[1..1]", "[2..1]", "[010]", "[08]", "[001]", "[0010..011]", "[..010]", "[09..]", "[00]"} {
 			emitText(fmt.Sprintf("S1F1 W H->E\n<%s%s %s>\n.", ty, sz, v), "huge")
 		}
 	}
 	// ASCII variables: bounds kept, printed back, enforced when filled
-	forms := []string{"", "[0]", "[3]", "[2..]", "E[2..4]", "E[3]", "E[1..]", "E[..2]", "[..4]", "[1..3]", "[0..0]", "[5..5]", "[ 2 .. 6 ]", "[7..]", "[..0]", "[3..2]", "[18446744073709551616]", "[1..99999999999999999999]"}
+	forms := []string{"", "[0]", "[3]", "[2..]", "E[2..4]", "E[3]", "E[1..]", "E[..2]", "B[2..3]", "B[1]", "B[..4]", "[08..010]", "[010]", "[007..]", "[..4]", "[1..3]", "[0..0]", "[5..5]", "[ 2 .. 6 ]", "[7..]", "[..0]", "[3..2]", "[18446744073709551616]", "[1..99999999999999999999]"}
 	for _, sz := range forms {
 		if c.want(idx) {
-			viaEll := strings.HasPrefix(sz, "E") // the variable sits in a group that an ellipsis repeats
-			sz = strings.TrimPrefix(sz, "E")
+			// E: the variable sits in a group that an ellipsis repeats; B: ... and is filled in the same call as the ellipsis
+			viaEll := strings.HasPrefix(sz, "E") || strings.HasPrefix(sz, "B")
+			sameCall := strings.HasPrefix(sz, "B")
+			sz = strings.TrimPrefix(strings.TrimPrefix(sz, "E"), "B")
 			text := fmt.Sprintf("S1F1 W H->E\n<L <A%s name1>>\n.", sz)
 			if viaEll {
 				text = fmt.Sprintf("S1F1 W H->E\n<L <A%s name1> ...>\n.", sz)
@@ -323,7 +325,7 @@ func driverSizes(c *Ctx) {
 				ev["otherlen"] = maxLenOf(msgs[0])
 				ev["printed"] = textChars(msgs[0].String())
 				tmpl, name := msgs[0], "name1"
-				if viaEll {
+				if viaEll && !sameCall {
 					// expand the group once, then fill the renamed variable of the first copy; the second is removed again
 					try(func() {
 						tmpl = tmpl.FillVariables(map[string]interface{}{"...[0]": 1}).FillVariables(map[string]interface{}{"name1[1]": strings.Repeat("x", maxLenOf(tmpl))})
@@ -333,7 +335,13 @@ func driverSizes(c *Ctx) {
 				for n := 0; n <= 9; n++ {
 					s := strings.Repeat("x", n)
 					var filled *ast.DataMessage
-					refused, _ := try(func() { filled = tmpl.FillVariables(map[string]interface{}{name: s}) })
+					refused, _ := try(func() {
+						if sameCall {
+							filled = tmpl.FillVariables(map[string]interface{}{"...[0]": 1, "name1[0]": s, "name1[1]": strings.Repeat("x", maxLenOf(tmpl))})
+						} else {
+							filled = tmpl.FillVariables(map[string]interface{}{name: s})
+						}
+					})
 					f := J{"len": n, "refused": refused, "item": J{"f": "none"}}
 					if !refused {
 						f["item"] = projItem(ast.VerifDataItem(filled))
@@ -460,7 +468,11 @@ func (g *Gen) separator(first, last bool) string {
 		case 3:
 			sb.WriteString("  ")
 		case 4, 5:
-			sb.WriteString(" //" + commentTexts[g.pick(len(commentTexts))] + []string{"\n", "\r\n", " \n", "\t\r\n"}[g.pick(4)])
+			lead := " "
+			if i == 0 && !first && g.pick(3) == 0 {
+				lead = "" // the comment directly behind the token
+			}
+			sb.WriteString(lead + "//" + commentTexts[g.pick(len(commentTexts))] + []string{"\n", "\r\n", " \n", "\t\r\n"}[g.pick(4)])
 		default:
 			sb.WriteString(" ")
 		}
@@ -653,6 +665,19 @@ func hostileCases(seed int64, tier string) []string {
 		add(fmt.Sprintf("S1F1 W H->E <U1[%s] 1> .", n))
 	}
 	add("S1F1 W H->E <L" + strings.Repeat(" <A[16777215] x>", 300) + "> .")
+	// header codes out of range in every combination with a wait bit
+	for _, sf := range []string{"S1F257", "S1F999", "S128F257", "S6F99999999999999999999", "S999F1", "S0F256"} {
+		for _, w := range []string{" W", " [W]", ""} {
+			add(sf + w + " .")
+			add(sf + w + " H->E name <U1 1> .")
+		}
+	}
+	// closed nesting with a variable at the bottom, at every level, and in the middle
+	for _, d := range []int{10, 25, 40, 200} {
+		add("S1F1 W H->E " + strings.Repeat("<L ", d) + "<U1 v>" + strings.Repeat(">", d) + " .")
+		add("S1F1 W H->E " + strings.Repeat("<L x ", d) + strings.Repeat(">", d) + " .")
+		add("S1F1 W H->E " + strings.Repeat("<L ", d/2) + "<L a b c ...>" + strings.Repeat(">", d/2) + " .")
+	}
 	// exotic white space in every place, invalid UTF-8
 	for _, ws := range []string{"\v", "\f", "\u0085", "\u00a0", "\u2003", "\u3000", "\xff", "\xc3", "\xe2\x80", "\x00"} {
 		add("S1F1 " + ws + "\n.")
@@ -707,7 +732,7 @@ func driverHostile(c *Ctx) {
 		c.emit(i, J{"ev": "begin", "variant": 0, "len": len(text), "head": textChars(head)})
 		c.out.Flush()
 		var ev J
-		if len(text) <= 3000 {
+		if len(text) <= 3000 && strings.Count(text, "<") <= 100 { // (the JSON reader of TLC nests at most 255 deep)
 			ev = parseEvent(text)
 		} else {
 			// long inputs: outcome, counts and positions only (the specification does not re-parse them)
